@@ -376,19 +376,18 @@ theorem fit_d_some (S : Matrix) (o : Int) (r q : List Nat) (i j : Nat) (hi : i <
 theorem exists_cand_fit (S : Matrix) (o : Int) (r q : List Nat) (i j : Nat) (hi : i < r.length)
     (hj : j < q.length) (k : Kind) (v : Int)
     (h : ((fitTable S o r q).at (i + 1) (j + 1)).get k = some v) (_ : ¬ ((false : Bool) = true ∧ v = 0)) :
-    ∃ cd ∈ cands false S o (r.getD i 0) (q.getD j 0),
+    ∃ cd ∈ cands false S o (r.getD i 0) (q.getD j 0), cd.1 = k ∧
       vadd ((predOf (fitTable S o r q) (i + 1) (j + 1) cd.1).get cd.2.1) cd.2.2 = some v := by
   apply Biogo.Proofs.NWAffine.exists_cand_of_inner i j _ k v h
   rw [fitTable_at S o r q (i + 1) (j + 1) (by omega), fitTable_at S o r q i j (by omega),
     fitTable_at S o r q i (j + 1) (by omega), fitTable_at S o r q (i + 1) j (by omega)]
   exact fitAt_inner S o r q i j hi hj
 
-/-- **FittedAffine, as far as C08 holds**: the reported total is the score of an alignment of
-    the whole query with a reference segment that ends at the reported end, without adjacent
-    opposite gaps. -/
-theorem fitAlign_sound (S : Matrix) (o : Int) (r q : List Nat) (hr : r ≠ []) (hq : q ≠ []) :
-    ∃ ps, fitAlign S o r q = .ok ps ∧ (lastEnd ps).1 ≤ r.length ∧
-      ∃ a, IsFitted a r q (lastEnd ps).1 ∧ NoAdj a ∧ scoreAff S o a = total ps := by
+/-- The pairs reported by the model of `FittedAffine` end at the selected row `e ≥ 1`, and
+    their total is the match-layer value of the last column of that row. -/
+theorem fitAlign_value (S : Matrix) (o : Int) (r q : List Nat) (hr : r ≠ []) (hq : q ≠ []) :
+    ∃ ps e x, fitAlign S o r q = .ok ps ∧ (lastEnd ps).1 = e ∧ 1 ≤ e ∧ e ≤ r.length ∧
+      (fitAt S o r q e q.length).d = some x ∧ total ps = x := by
   have hR : 1 ≤ r.length := by cases r with | nil => exact absurd rfl hr | cons _ _ => simp
   have hC : 1 ≤ q.length := by cases q with | nil => exact absurd rfl hq | cons _ _ => simp
   have hE : fitEnd (fitTable S o r q) q.length r.length 1 (0, none) ≤ r.length :=
@@ -406,19 +405,15 @@ theorem fitAlign_sound (S : Matrix) (o : Int) (r q : List Nat) (hr : r ≠ []) (
     simp only []
     rw [fitTable_at S o r q _ _ (Nat.le_refl _), hC']; exact hx
   obtain ⟨st', hloop, ⟨hi', hj', v, hv, hsum⟩, hend⟩ :=
-    loop_good_gen false r.length q.length (exists_cand_fit S o r q) x (e' + 1 + q.length) _ hinit
+    loop_good_gen true false r.length q.length (exists_cand_fit S o r q) x (e' + 1 + q.length) _ hinit
       (Nat.le_refl _)
-  have hinv := Biogo.Proofs.TraceWF.loop_inv false _ S o r q r.length q.length (e' + 1) q.length _ _ st'
+  have hinv := Biogo.Proofs.TraceWF.loop_inv true false _ S o r q r.length q.length (e' + 1) q.length _ _ st'
     (Biogo.Proofs.TraceWF.init_inv r.length q.length (e' + 1) q.length .m hE (Nat.le_refl _)) hloop
   obtain ⟨_, hlast, _⟩ := Biogo.Proofs.TraceWF.emit_wf hinv
   have hne : st'.emit.aln ≠ [] := by simp [TB.emit]
   -- the value the loop stops on
   rw [fitTable_at S o r q _ _ hj'] at hv
-  have hstrong := fitRows_strong S o r q (e' + 1) q.length hE hC (Nat.le_refl _) .m x
-    (by rw [hC']; exact hx)
-  rw [List.take_length] at hstrong
-  obtain ⟨a, ha, hsc⟩ := hstrong
-  obtain ⟨hfit, hna⟩ := fitted_of_adm r q (e' + 1) hE a ha.1
+  have hxd : (fitAt S o r q (e' + 1) q.length).d = some x := by rw [hC']; exact hx
   unfold fitAlign fitAlignT
   simp only [he, hloop]
   by_cases hj0 : st'.j ≠ 0
@@ -435,9 +430,8 @@ theorem fitAlign_sound (S : Matrix) (o : Int) (r q : List Nat) (hr : r ≠ []) (
       refine ⟨rfl, ?_⟩
       rw [fitAt_row0, optRows_row0 _ S o r q j' (by omega)]
       exact hv
-    refine ⟨_, rfl, ?_, a, ?_, hna, ?_⟩
-    · rw [Biogo.Proofs.TraceWF.lastEnd_cons _ _ hne, hlast]; exact hE
-    · rw [Biogo.Proofs.TraceWF.lastEnd_cons _ _ hne, hlast]; exact hfit
+    refine ⟨_, e' + 1, x, rfl, ?_, hE1, hE, hxd, ?_⟩
+    · rw [Biogo.Proofs.TraceWF.lastEnd_cons _ _ hne, hlast]
     · simp only [total_cons, TB.emit]
       rw [fitTable_at S o r q _ _ hj', hi0, hj'e, hl.2]
       simp only [vget]
@@ -455,10 +449,23 @@ theorem fitAlign_sound (S : Matrix) (o : Int) (r q : List Nat) (hr : r ≠ []) (
         rw [hi0, fitAt_col0 S o r q i0 (by omega)] at hv
         cases hk : st'.layer <;> rw [hk] at hv <;> simp [Cell.get] at hv
         omega
-    refine ⟨_, rfl, ?_, a, ?_, hna, ?_⟩
-    · rw [hlast]; exact hE
-    · rw [hlast]; exact hfit
+    refine ⟨_, e' + 1, x, rfl, ?_, hE1, hE, hxd, ?_⟩
+    · rw [hlast]
     · simp only [total_cons, TB.emit]
       omega
+
+/-- **FittedAffine, as far as C08 holds**: the reported total is the score of an alignment of
+    the whole query with a reference segment that ends at the reported end, without adjacent
+    opposite gaps. -/
+theorem fitAlign_sound (S : Matrix) (o : Int) (r q : List Nat) (hr : r ≠ []) (hq : q ≠ []) :
+    ∃ ps, fitAlign S o r q = .ok ps ∧ (lastEnd ps).1 ≤ r.length ∧
+      ∃ a, IsFitted a r q (lastEnd ps).1 ∧ NoAdj a ∧ scoreAff S o a = total ps := by
+  have hC : 1 ≤ q.length := by cases q with | nil => exact absurd rfl hq | cons _ _ => simp
+  obtain ⟨ps, e, x, hps, hend, _, heR, hx, htot⟩ := fitAlign_value S o r q hr hq
+  have hstrong := fitRows_strong S o r q e q.length heR hC (Nat.le_refl _) .m x hx
+  rw [List.take_length] at hstrong
+  obtain ⟨a, ha, hsc⟩ := hstrong
+  obtain ⟨hfit, hna⟩ := fitted_of_adm r q e heR a ha.1
+  refine ⟨ps, hps, by rw [hend]; exact heR, a, by rw [hend]; exact hfit, hna, by rw [hsc, htot]⟩
 
 end Biogo.Proofs.FittedAffine
